@@ -243,7 +243,7 @@ func repoCommand(name string) (string, error) {
 	if repo == "" {
 		repo = "/repo"
 	}
-	out := filepath.Join(root, "bin", "cmd_"+name)
+	out := filepath.Join(binDir(), "cmd_"+name)
 	cmd := exec.Command("go", "build", "-o", out, "./cmd/obitools/"+name)
 	cmd.Dir = repo
 	env := []string{}
